@@ -96,10 +96,10 @@ def check_decls(decls, radix, order, with_stores, p):
     # two of three cases are loaded into a simulation with a history: (1) it has loaded (not run) another program with a
     # bigger, non-zero data segment; (2) it has loaded this very text, then a program with such a data segment that is
     # REJECTED after its data was written, and now loads this text again
-    hist = (len(decls) + radix + order) % 3
-    before_of = {0: lambda t: None, 1: lambda t: DIRTY, 2: lambda t: [t, DIRTY_REJECTED]}[hist]
+    hist = (len(decls) + radix + order) % 4
+    before_of = {0: lambda t: None, 1: lambda t: DIRTY, 2: lambda t: [t, DIRTY_REJECTED], 3: lambda t: [("touch", DIRTY, tuple(range(DATA, DATA + 176, 4)))]}[hist]
     if hist:
-        p.counters["loaded-over-an-earlier-program" if hist == 1 else "loaded-again-after-a-rejected-program"] += 1
+        p.counters[("", "loaded-over-an-earlier-program", "loaded-again-after-a-rejected-program", "loaded-after-an-earlier-program-was-looked-at")[hist]] += 1
     # the layout does not depend on the data-cache configuration: rotate none / write-back with multi-word blocks / write-through
     from vf.adapt import rv as _rv
     simkw = {}
@@ -230,7 +230,7 @@ def check_decls(decls, radix, order, with_stores, p):
             if last is not None and int(sim.state.register_file.registers[2]) != last:
                 bad.append(("store-address-register", f"x2 = {int(sim.state.register_file.registers[2]):#x} after the last store, expected {last:#x}", text))
     ctxt = ([f"data memory with first address {base:#x}"] if base != DATA else []) + ([f"data cache {simkw['data_cache']}"] if simkw else []) \
-        + [["", "loaded over an earlier program", "loaded, then a program rejected after its data was written, then loaded again"][hist]] * bool(hist)
+        + [["", "loaded over an earlier program", "loaded, then a program rejected after its data was written, then loaded again", "loaded after an earlier program's data was read through the memory system (uncounted)"][hist]] * bool(hist)
     if ctxt:
         bad = [(f, d + " [" + "; ".join(ctxt) + "]", t) for f, d, t in bad]
     return bad
@@ -428,4 +428,4 @@ def run(ctx):
     if d:
         part.violation(dict(oracle="example", field="registers"), dict(kind="example"), d)
     ctx.space("help-page-example", part, t0)
-    ctx.require("alignment-after-odd-sized-variable", "string", "zero-reservation", "li-carry-into-upper-part", "variable-behind-a-2KiB-boundary", "loaded-over-an-earlier-program", "loaded-again-after-a-rejected-program", "data-memory-with-another-first-address", "assembled-with-a-data-cache")
+    ctx.require("alignment-after-odd-sized-variable", "string", "zero-reservation", "li-carry-into-upper-part", "variable-behind-a-2KiB-boundary", "loaded-over-an-earlier-program", "loaded-again-after-a-rejected-program", "loaded-after-an-earlier-program-was-looked-at", "data-memory-with-another-first-address", "assembled-with-a-data-cache")
